@@ -6,6 +6,8 @@ threads cases : 2-4 thread programs (call a probe in a shared / distinct scope, 
 sequential    : one-thread histories of singleton uses and clear_config.
 """
 import random
+import collections
+import gc
 import warnings
 
 from hypothesis import strategies as st
@@ -50,7 +52,8 @@ LEVEL_NOTE = ('Trusted: vf/sched.py (token-passing scheduler; every schedule it 
 N_PROBES = 3
 KEYS = ['k1', 'k2']
 SCOPES = ['', 's', 't', 's/t']
-CTOR_LOG = []
+CTOR_LOG = []        # (key, serial) per construction: the log must not keep the objects alive
+_Built = collections.namedtuple('_Built', 'key serial')
 
 
 class Made:
@@ -77,7 +80,7 @@ PROBES = [_mk_probe(i) for i in range(N_PROBES)]
 @gin.configurable('c18ctor')
 def _ctor(tag='?'):
   obj = Made(gin.current_scope_str(), len(CTOR_LOG))
-  CTOR_LOG.append(obj)
+  CTOR_LOG.append(_Built(obj.key, obj.serial))
   return obj
 
 
@@ -86,7 +89,7 @@ def _ctor2(inner=None):
   # a singleton whose construction uses another singleton (nested lookup-or-construct)
   obj = Made(gin.current_scope_str(), len(CTOR_LOG))
   obj.inner = inner
-  CTOR_LOG.append(obj)
+  CTOR_LOG.append(_Built(obj.key, obj.serial))
   return obj
 
 
@@ -109,7 +112,21 @@ def _ctor3(tag='?'):
   if FLAKY[0] == 1:
     raise _CtorFailed('not ready yet')
   obj = Made(gin.current_scope_str(), len(CTOR_LOG))
-  CTOR_LOG.append(obj)
+  CTOR_LOG.append(_Built(obj.key, obj.serial))
+  return obj
+
+
+EVENTS = {}
+WAIT = [lambda pred: None]      # set per run: how user code waits for a condition
+
+
+@gin.configurable('c18ctor4')
+def _ctor4(tag='?'):
+  # a constructor that needs work done by another thread (a dataset built by workers): it waits
+  # until that thread has made its calls
+  WAIT[0](lambda: EVENTS.get('go'))
+  obj = Made(gin.current_scope_str(), len(CTOR_LOG))
+  CTOR_LOG.append(_Built(obj.key, obj.serial))
   return obj
 
 
@@ -142,6 +159,7 @@ CONFIG = '\n'.join(
      'c18ctor2.inner = @k1/gin.singleton()'] +
     [f'{k}/c18user.x = @{k}/gin.singleton()' for k in KEYS] +
     ['k3/gin.singleton.constructor = @c18ctor3', 'k3/c18user.x = @k3/gin.singleton()'] +
+    ['k4/gin.singleton.constructor = @c18ctor4', 'k4/c18user.x = @k4/gin.singleton()'] +
     ['c18user2.x = @c18slow()', 'c18mac = @c18slow()', 'c18user3.x = [%c18mac]']) + '\n'
 
 
@@ -188,6 +206,13 @@ def do_op(op, reads, uses, yield_now=lambda: None):
       with gin.config_scope(key):
         obj = gin.config.singleton_value(key, _ctor if key == 'k1' else _ctor2)
     uses.append((key, obj))
+  elif kind == 'single-wait':
+    # the singleton whose constructor waits for another thread's calls
+    with gin.config_scope('k4'):
+      obj = _user()
+    uses.append(('k4', obj))
+  elif kind == 'signal':
+    EVENTS['go'] = True
   elif kind == 'flaky-single':
     # a singleton whose constructor raises the first time: that use fails (the caller handles it),
     # nothing is cached and nothing is left behind; a later use, from any thread, constructs it
@@ -221,12 +246,14 @@ def check_threads(case):
   gin.parse_config(CONFIG)
   del CTOR_LOG[:]
   FLAKY[0] = 0
+  EVENTS.clear()
   tape = case['schedule']
   choices = sched.expand_schedule(tape)
   import os  # pylint: disable=g-import-not-at-top
   s = sched.Scheduler(choices, [os.path.dirname(gin.__file__)],
                       watch=('singleton_value', '_config_str', 'gin_wrapper'))
   lock_names = sched.install_coop_locks(gin.config, s)
+  WAIT[0] = s.wait_until
   n = len(case['programs'])
   reads = [[] for _ in range(n)]
   uses = [[] for _ in range(n)]
@@ -296,6 +323,8 @@ def check_threads(case):
   gin.clear_config()
   gin.parse_config(CONFIG)
   FLAKY[0] = 0
+  EVENTS['go'] = True          # one after another nobody has to wait
+  WAIT[0] = lambda pred: None
   for i in range(n):
     for op in case['programs'][i]:
       do_op(op, [], [])
@@ -392,24 +421,29 @@ def _check_sequential(case, labels, worker):
     before = len(CTOR_LOG)
     run(lambda: do_op(op[:3], [], uses))
     key, obj = uses[0]
+    serial, inner_serial = obj.serial, (obj.inner.serial if key == 'k2' else None)
+    # the consumer does not keep the object: whether anybody still holds it must not matter
+    del obj, uses
+    gc.collect()
     if key in current:
-      require(obj is current[key], 'singleton-not-reused', key)
+      require(serial == current[key], 'singleton-not-reused',
+              lambda: f'{key}: use delivered construction #{serial}, earlier uses #{current[key]}')
       require(len(CTOR_LOG) == before, 'singleton-reconstructed', key)
     else:
       # constructing k2 also needs k1 (its constructor uses that singleton)
       inner_new = key == 'k2' and 'k1' not in current
       grew = len(CTOR_LOG) - before
-      require(grew == 1 + inner_new and obj is CTOR_LOG[-1] and obj.key == key,
+      require(grew == 1 + inner_new and CTOR_LOG[-1] == (key, serial),
               'singleton-not-constructed-anew',
               lambda: f'key {key}: the first use (also after clear_config) must construct '
                       f'exactly once (constructors ran {grew} times)')
       if key in cleared_keys:
         seen_after_clear = True
-      current[key] = obj
+      current[key] = serial
       if key == 'k2':
         if inner_new:
-          current['k1'] = obj.inner
-        require(obj.inner is current['k1'], 'nested-singleton-identity', '')
+          current['k1'] = inner_serial
+        require(inner_serial == current['k1'], 'nested-singleton-identity', '')
   if seen_after_clear:
     labels.add('sequential:nontrivial')
   return ok(labels, seen_after_clear)
@@ -482,6 +516,24 @@ def _flaky_race_case(draw):
   return {'kind': 'threads', 'programs': programs, 'schedule': schedule}
 
 
+@st.composite
+def _ctor_waits_case(draw):
+  """A singleton's constructor waits for calls made by another thread (which uses no singleton
+  itself before it has signalled): everybody must get through."""
+  plain = st.one_of(
+      st.tuples(st.just('call'), st.integers(0, N_PROBES - 1), st.integers(0, 3),
+                st.integers(0, 2)).map(list), st.just(['read']), st.just(['refcall', 0]))
+  worker = draw(st.lists(plain, min_size=1, max_size=3)) + [['signal']] + draw(
+      st.lists(_op, max_size=2))
+  programs = [[['single-wait']] + draw(st.lists(plain, max_size=1)), worker]
+  if draw(st.booleans()):
+    programs.append(draw(st.lists(plain, min_size=1, max_size=2)) + [['single-wait']])
+  schedule = {'t': draw(st.lists(st.integers(0, 3), max_size=40)),
+              's': draw(st.integers(1, 2**31)), 'n': draw(st.sampled_from([100, 300, 560])),
+              'burst': draw(st.booleans())}
+  return {'kind': 'threads', 'programs': programs, 'schedule': schedule}
+
+
 def strategy():
   return st.one_of(_threads_case(), _threads_case(), _record_growth_case(), _sequential_case(),
-                   _flaky_race_case())
+                   _flaky_race_case(), _ctor_waits_case())
